@@ -2797,6 +2797,9 @@ class HasTraits(CHasTraits, metaclass=MetaHasTraits):
         locked[name] = None
         try:
             changed_list = getattr(self, name)
+            # List objects that hold the change already: partners that are
+            # not List traits (e.g. Any) can share one list object.
+            updated = {id(changed_list)}
             # Iterate over a snapshot (see _sync_trait_modified).
             for object, object_name in list(info[name].values()):
                 object = object()
@@ -2805,11 +2808,13 @@ class HasTraits(CHasTraits, metaclass=MetaHasTraits):
                 if object_name not in object._get_sync_trait_info()[""]:
                     try:
                         partner_list = getattr(object, object_name)
-                        if partner_list is changed_list:
+                        if id(partner_list) in updated:
                             # A partner that is not a List trait (e.g. Any)
-                            # can hold this very list object; it has changed
+                            # can hold this very list object, or the list
+                            # object of another partner; it has changed
                             # already.
                             continue
+                        updated.add(id(partner_list))
                         if event.added or index.step is None:
                             partner_list[index] = event.added
                         else:
